@@ -640,12 +640,15 @@ class HealSparseMap(object):
                 np.add.at(sparse_map, indices, values)
             elif operation == "or":
                 if self._is_bit_packed:
-                    sparse_map[indices] |= values
+                    # An "or" can only set bits; setting is idempotent, so repeated
+                    # indices accumulate exactly as np.bitwise_or.at does.
+                    sparse_map[indices[np.broadcast_to(values, indices.shape)]] = True
                 else:
                     np.bitwise_or.at(sparse_map, indices, values)
             elif operation == "and":
                 if self._is_bit_packed:
-                    sparse_map[indices] &= values
+                    # An "and" can only clear bits (see "or" above).
+                    sparse_map[indices[~np.broadcast_to(values, indices.shape)]] = False
                 else:
                     np.bitwise_and.at(sparse_map, indices, values)
 
